@@ -93,6 +93,16 @@ def main():
     mp = os.path.join(dst, "meta.json")
     if os.path.exists(mp):
         old = json.load(open(mp))
+    if skip_suite and "confirmed" in old:
+        # a run without the repository's suite refreshes demo and check results only: the earlier full confirmation stands
+        meta.pop("confirmed", None)
+        if "confirmed_at" not in old:
+            old["confirmed_at"] = old.get("repo_head")
+        steps = dict(old.get("steps", {}))
+        steps.update({k: v for k, v in meta.get("steps", {}).items() if not (k == "suite_with_change" and v.get("rc") == -1)})
+        meta["steps"] = steps
+    elif not skip_suite:
+        meta["confirmed_at"] = meta.get("repo_head")
     old.update(meta)
     json.dump(old, open(mp, "w"), indent=1)
 
